@@ -34,7 +34,7 @@ func TokenStarts(src []byte) (tok map[int]bool, comment map[int]bool) {
 	return
 }
 
-var artefactRE = regexp.MustCompile(`%!\w?\(|%!\(EXTRA|%!\(MISSING|PANIC=|<nil>|%!\w\(`)
+var artefactRE = regexp.MustCompile(`%!.?\(|\(MISSING\)|\(EXTRA |\(BADINDEX\)|\(BADWIDTH\)|\(BADPREC\)|\(NOVERB\)|PANIC=|<nil>`)
 
 // FileOracle caches the scanner-derived facts of one file on disk.
 type FileOracle struct {
